@@ -2,6 +2,8 @@ package main
 
 import (
 	"bytes"
+	"fmt"
+	"hash/fnv"
 	"context"
 	"encoding/json"
 	"os"
@@ -81,6 +83,13 @@ func runC06(a *args) error {
 			return err
 		}
 		cases = append(cases, rp.Case)
+	}
+	if a.replay == "" && a.n > 0 {
+		// id sweep: two million partition ids (four prefix lengths) must get pairwise different intermediate-key ids; a colliding
+		// pair, if any, is then run through real sessions like every other pair
+		for _, pair := range c06Sweep("svc", "prod", 500000) {
+			cases = append(cases, c06Case{P: gen.H(pair[0]), Q: gen.H(pair[1]), Svc: gen.H("svc"), Prod: gen.H("prod")})
+		}
 	}
 	svcs := []string{"svc", "s", "a_b", "_", "prod", ""}
 	prods := []string{"prod", "p", "svc", "x_y", "_", ""}
@@ -253,4 +262,29 @@ func hexv(c byte) byte {
 		return c - 'a' + 10
 	}
 	return 0
+}
+
+// c06Sweep derives the intermediate-key id of `per` partition ids for each of four prefix lengths (through the SDK's own id
+// construction, exposed by the verification overlay) and returns up to two pairs of different partitions with the same key id.
+func c06Sweep(svc, prod string, per int) [][2]string {
+	var out [][2]string
+	for _, plen := range []int{40, 140, 200, 300} {
+		prefix := strings.Repeat("tenant-0123456789abcdef/", 20)[:plen]
+		seen := make(map[uint64]int32, per)
+		mk := func(i int) string { return fmt.Sprintf("%s%010d", prefix, i) }
+		for i := 0; i < per && len(out) < 2; i++ {
+			_, ik := ae.VerifKeyIDs(mk(i), svc, prod, "")
+			h := fnv.New64a()
+			h.Write([]byte(ik))
+			k := h.Sum64()
+			if j, ok := seen[k]; ok {
+				if _, ik2 := ae.VerifKeyIDs(mk(int(j)), svc, prod, ""); ik2 == ik {
+					out = append(out, [2]string{mk(int(j)), mk(i)})
+				}
+				continue
+			}
+			seen[k] = int32(i)
+		}
+	}
+	return out
 }
